@@ -126,6 +126,8 @@ def run(rep, tier, seed, model_ok=True, effort=1):
                         fam.append(rel + pre + post + dev + loc)
     # digits outside ASCII: PEP 440 numbers are [0-9] only, such strings are legacy versions (the extracted pattern spells the class out)
     fam += ["1.\u0663", "v2017.\uff15\uff14\uff13\uff12\uff11", "\u0661.\u0662.\u0663", "1.0a\u0662", "1.0.post\u0663", "1.0.dev\u0969"]   # (not: such digits next to "!" or "+", where the legacy key's \d+ component regex sees them -- outside the ASCII model)
+    # text spanning several lines of which one line is a PEP 440 version: not a version (the whole string has to be one)
+    fam += ["1.0\nfoo", "foo\n1.0", "v2017q1.54321\n2017.54321", "1.0\n2.0", "1.0\r\nx", "x\n1.0\ny"]
     for i in range(n + len(fam)):
         s = fam[i - n] if i >= n else (gen_pep440(r) if r.random() < 0.6 else gen_legacy(r))
         if s in seen:
